@@ -181,7 +181,7 @@ func cmdCheck(args []string) {
 		if fc := e.Contracts[res.Key]; fc != nil && fc.Mode == "fp" {
 			fr.FloatMode = "fp (IEEE-754 binary64, RNE)"
 		}
-		if fn := e.Funcs[res.Key]; fn != nil {
+		if fn := e.lookupFunc(res.Key); fn != nil {
 			fr.File = strings.TrimPrefix(e.Fset.Position(fn.Pos()).Filename, *repo+"/")
 			fr.Blob = gitBlob(*repo, fr.File)
 		}
